@@ -38,7 +38,7 @@ CLAIMED["C07"] = dict(
 
 NOT_YET = {}
 # properties whose check exists but is not claimed yet (e.g. waiting for a fix commit or a review)
-HOLD = {"C11", "C15", "C16"}
+HOLD = set()
 
 
 def from_notes():
